@@ -4,6 +4,11 @@ import json, subprocess
 
 # id: (level, engine, technique, level text, level note, design ref)
 CHECKS = {
+ "C06": ("exploration", "space",
+         "complete enumeration of ellipsoid table x latitude/longitude/height lattices x geodesic start/azimuth/distance lattices x auxiliary latitude kinds, against identities, closed forms and Gauss-Legendre quadrature",
+         "Every entry of the built-in table (via hook H2) must instantiate and carry the published a and 1/f (harness transcription of PROJ's list; names without reference are UNCOVERED); for every ellipsoid (quick 8 + 4 synthetic with f up to 1/150, thorough all) the nine derived shape parameters satisfy their identities; geographic->cartesian equals the defining formula, height-zero points satisfy the ellipsoid equation, the cart operator round-trips to 1 um and the closed form to 1 cm for h in [-10 km, 100 km] (1 mm to 1e7 m for ordinary flattenings) on a lat x lon x 7-height lattice incl. the poles; all six auxiliary latitudes are odd, strictly increasing along the lattice, fix 0 and the poles, round-trip to 1e-12 rad and equal their closed forms / quadrature to 1e-11 rad; meridian distance and latitude are mutual inverses; geodesics from 6 (thorough 98) starts x 32 azimuths (every 15 deg plus 0.1 deg off the cardinals) x 6 distances to 19000 km: direct/inverse consistency, end point symmetry, meridian arcs against quadrature, equatorial arcs a*dlon, great circles on the sphere.",
+         "Figures the statement does not give (geodesic consistency, arc comparisons: 1 mm; mutual inverse of the meridian formulae: 1 mm) are the harness's reading. Pairs within 1 degree of antipodal are excluded as documented. Lattice coverage only.",
+         "DESIGN.md §3 C06"),
  "C05": ("exploration", "space",
          "complete enumeration of projection aspect x ellipsoid x fixed lattice; scale factors from 4th-order central differences of the real forward operator vs. the harness's own M, N and meridian-arc quadrature",
          "For all 48 projection aspects x ellipsoids (quick: GRS80, intl, sphere, f=1/150; thorough: every instantiable built-in plus f=1/150, 1/200, 1/1000) x the lattice (|lat| <= 89.9, tmerc within 60 deg, btmerc 3 deg; quick 7.5x15 deg, thorough 1x3 deg plus all special points): conformal projections must have equal scale along meridian and parallel, orthogonal graticule images and positive orientation; laea area scale 1; webmerc equals a*lambda, a*asinh(tan phi); k_0 along the central meridian of tmerc/utm/btmerc with northing = k_0*(arc(phi)-arc(lat_0))+y_0 against Gauss-Legendre quadrature; k_0 on the equator or unity at +-lat_ts for merc; k_0 on each standard parallel of lcc; k_0 at the centre of somerc/omerc; projection centre mapped to (x_0, y_0).",
@@ -102,7 +107,7 @@ def main():
             "add_only": True,
         },
         "engines": [
-            {"name": "space", "path": "/verif/mc/src/engine.rs", "kind_free_text": "exhaustive mixed-radix product enumeration on 16 threads (par_range/decode)", "serves_properties": ["C01", "C05", "C11", "C13", "C16", "C19"]},
+            {"name": "space", "path": "/verif/mc/src/engine.rs", "kind_free_text": "exhaustive mixed-radix product enumeration on 16 threads (par_range/decode)", "serves_properties": ["C01", "C05", "C06", "C11", "C13", "C16", "C19"]},
             {"name": "explore", "path": "/verif/mc/src/props", "kind_free_text": "explicit-state / program-tree exploration of the real API against reference models written in Rust", "serves_properties": ["C02", "C03", "C04", "C12", "C17", "C18"]},
             {"name": "sched", "path": "/verif/mc/src/props/c18.rs", "kind_free_text": "shuttle DfsScheduler over real threads sharing Plain contexts and the process-wide grid cache; yield points from hook H4", "serves_properties": ["C18"]},
             {"name": "workers", "path": "/verif/mc/src/engine.rs", "kind_free_text": "worker subprocesses (2 MiB stack, 4 GiB address space, watchdog) for hang / overflow / abort detection", "serves_properties": ["C04"]},
